@@ -387,7 +387,9 @@ def c19_post_run(vc, scr, spec, res, children):
 register("C19", title="time safeguard", pkg="./internal/timesafeguard", post_run=c19_post_run,
          parts=[{"test": "^TestVerifC19$", "children": {"quick": 8, "thorough": 16}, "cases": {"quick": 60000, "thorough": 1500000}},
                 {"test": "^TestVerifC19Real$", "children": {"quick": 4, "thorough": 16}, "cases": {"quick": 12, "thorough": 60}},
-                {"test": "^TestVerifC19Real$", "race": True, "may_die": True, "children": {"quick": 2, "thorough": 8}, "cases": {"quick": 14, "thorough": 60}}],
+                {"test": "^TestVerifC19Real$", "race": True, "may_die": True, "children": {"quick": 2, "thorough": 8}, "cases": {"quick": 14, "thorough": 60}},
+                {"cluster": True, "cluster_args": ["-safeguard"], "children": {"quick": 1, "thorough": 6}, "cases": {"quick": 1, "thorough": 3},
+                 "race": {"quick": False, "thorough": False}, "timeout": {"quick": 600, "thorough": 1500}}],
          timeout={"quick": 300, "thorough": 1800}, level="exploration",
          rule="synthetic measurements generated from a true clock offset (both signs, microseconds to hours, values within 1ms of the 2s election "
               "timeout), request and response delays and 0-4 peers of which some do not answer, handed to synchronizedWithNetwork; oracle independent of "
